@@ -69,12 +69,12 @@ def make_modifier(fa):
     return NS
 
 
-def expanded_graph(fa, name, dtype, nargs=1, simplify=True, ctx=None):
+def expanded_graph(fa, name, dtype, nargs=1, simplify=True, ctx=None, parameters=None):
     """Trace algorithms.<name> for `dtype` arguments and expand. Returns the apply-graph.  `ctx`: an existing Context to
     trace in (histories on one shared Context); default a fresh one."""
     with quiet():
         if ctx is None:
-            ctx = fa.Context(paths=[fa.algorithms])
+            ctx = fa.Context(paths=[fa.algorithms], parameters=dict(parameters) if parameters else None)
         g = ctx.trace(getattr(fa.algorithms, name), *([dtype] * nargs))
         ns = make_modifier(fa)
         g2 = g.rewrite(ns, fa.rewrite) if simplify else g.rewrite(ns)
